@@ -94,7 +94,7 @@ def isErr : RxOut → Option RxErr
 
 /-- the `bufferLoop` of `readPackets`: decode frames out of `receiveBuffer` until it is empty,
     more data is needed (`ErrAgain`), or an error occurs (returned).  `fuel` bounds the number
-    of decoder phases; `procFuel` always suffices (`Lemmas/Obfs4Conn.lean: processBuffer_spec`):
+    of decoder phases; `procFuel` always suffices (`Lemmas/Obfs4Chunk.lean: processBuffer_spec`):
     `2 * |rxBuf| + [pending known]` strictly decreases with every non-error phase.
     (The Go loop condition `receiveBuffer.Len() > 0` needs no separate test: with an empty buffer
     both decoder phases answer `ErrAgain`, because a pending length is never 0 in the real code —
